@@ -470,6 +470,15 @@ def run(repo, res):
     res.check('C14-R2', 'ext types accepted by the constructor', er[0] <= 0 and er[1] == 127 and er[0] in (0, -128), F, 0,
               'Ext must accept the application types 0..127 (and may accept the predefined -128..-1); it accepts %s' % (er,),
               sample='Ext types %d..%d' % er)
+    # R6 the byte-string wrappers: each dumps() starts from an empty buffer, loads() reads the bytes it was given
+    seq = C.dumps_sequence(repo, [5, 'UNSUPPORTED', 7, [1, 2]])
+    res.check('C14-R6', 'dumps builds each encoding in a buffer of its own', seq == [b'\x05', 'UnsupportedTypeException', b'\x07', b'\x92\x01\x02'],
+              F, 0, 'dumps(5), dumps([1, 2, <unsupported object>]), dumps(7), dumps([1, 2]) must give 05, UnsupportedTypeException, 07, '
+              '92 01 02 - the bytes written before a failed encoding must not leak into the next one; got %s' % (seq,),
+              sample='dumps after a failed dumps starts empty')
+    lv = [C.loads_value(repo, d) for d in (b'\x05', b'\x92\x01\x02', b'\xc3')]
+    res.check('C14-R6', 'loads decodes the bytes it is given', lv == [(5, None), ([1, 2], None), (True, None)], F, 0,
+              'loads(05), loads(92 01 02), loads(c3) must give 5, [1, 2], True; got %s' % (lv,), sample='loads(bytes) = unpack(BytesIO(bytes))')
     res.count('writer_rows', nw, floor=60)
     res.count('reader_rows', nr, floor=512)
     res.count('truncation_cases', ncut, floor=150)
